@@ -40,3 +40,16 @@ Lemma C02_run_wait_outside_lock :
   | _ => false
   end = true.
 Proof. vm_compute. reflexivity. Qed.
+
+(** the cache middleware registers the hit-for-pass completion as a DEFERRED
+    call right after it became the fetcher and before it calls the next
+    handler — so it also runs when the handler returns an error or panics
+    (Go runs deferred calls while unwinding); the cacheable completion comes
+    after the handler *)
+Lemma C02_run_middleware_completes_on_every_exit :
+  let calls := flat_all sk__NewCache in
+  registered_before "httpCache.Get" "defer:httpCache.HitForPass" calls
+  && registered_before "defer:httpCache.HitForPass" "c.Next" calls
+  && registered_before "c.Next" "httpCache.Cacheable" calls
+  && negb (existsb (String.eqb "httpCache.HitForPass") calls) = true.
+Proof. vm_compute. reflexivity. Qed.
